@@ -1,8 +1,9 @@
 (* C08 -- term_correlation_function_right / _left (tenpy/networks/mps.py, autoJW=True): which operator word is contracted on
    which site, hand-modelled from the source on top of the correspondence-checked model `term_to_ops_list` of Model/JW.v
    (stream `ops_list` of harness/c08.py).  Definitions only.  The values are compared with dense <bra|O|ket> by the oracle of
-   harness/c08.py (measurements term_correlation_function_right/left); this file is tied to the code through term_to_ops_list
-   and by reading the source.
+   harness/c08.py (measurements term_correlation_function_right/left); tcf_right_words / tcf_left_words are run against the
+   implementation in the stream `tcf_words` (Model/CorrTermCheck.v, checker check_tcf_case: the words handed to _corr_ops_LP /
+   _corr_ops_RP and applied in the gap, and the two ValueErrors).
 
    A term is a list of items (operator id, site, needs_JW); `_term_to_ops_list(term, autoJW, i_offset, JW_from_right)` looks the
    flag up on site i + i_offset and returns i_min + i_offset: in the model the flags travel with the items, so the offset is a
